@@ -111,11 +111,15 @@ pub fn case_of(wf: &Wf, cfg: Cfg, gen: &str) -> Case {
 }
 
 pub fn wf_generate(stream: &str, t: &mut Tape, gen_cfg: bool) -> Option<Case> {
+    wf_generate_opts(stream, t, gen_cfg, Opts::default())
+}
+
+pub fn wf_generate_opts(stream: &str, t: &mut Tape, gen_cfg: bool, opts: Opts) -> Option<Case> {
     if stream != "prog" && stream != "progbig" {
         return None;
     }
     let cfg = if gen_cfg { Cfg::gen_unsaturated(t) } else { Cfg::default() };
-    let wf = build(t, fuel_for(stream), Opts::default(), None, None)?;
+    let wf = build(t, fuel_for(stream), opts, None, None)?;
     Some(case_of(&wf, cfg, stream))
 }
 
